@@ -73,6 +73,11 @@ pub fn gen_case(prop: &str, run_seed: u64) -> Case {
             Case::Server { scenario: gen::gen_live(&mut rng, small_k), sched_seed }
         }
         "C11" => Case::Server { scenario: gen::gen_converge(&mut rng), sched_seed },
+        "C12" if run_seed % 16 == 5 => {
+            // decided outside the generator's stream, so that the other fifteen sixteenths of
+            // the sample are the sessions they were before this sub-profile existed
+            Case::Server { scenario: gen::gen_overlay_symlink(&mut rng), sched_seed }
+        }
         "C12" => {
             let removed = rng.chance(1, 5);
             Case::Server { scenario: gen::gen_overlay(&mut rng, removed), sched_seed }
@@ -201,6 +206,7 @@ fn counters_of(res: &ExecResult, scenario: &Scenario) -> BTreeMap<String, u64> {
     put("disk_read", c.disk_reads);
     put("disk_read_missing", c.disk_read_missing);
     put("disk_read_unreadable", c.disk_read_unreadable);
+    put("disk_read_through_link", c.disk_read_through_link);
     put("disk_diverged_read", c.disk_diverged_read);
     put("input_fragment", c.input_fragments);
     put("output_backpressure", c.output_backpressure);
@@ -349,6 +355,22 @@ pub fn judge_server(prop: &str, scenario: &Scenario, res: &ExecResult, report: &
                     if !model.racy.last().copied().unwrap_or(false) {
                         for x in oracle::check_c11(&model, res, &mut stats) {
                             v.push(Violation::new("C12", format!("shown-when-idle:{}", x.class), x.detail));
+                        }
+                    }
+                    if scenario.profile == "overlay-symlink" && !v.is_empty() {
+                        // is this exactly the listed finding (an open document reached through
+                        // a symbolic link is served from disk)? Then every message must agree
+                        // with a reference that reads through links to the disk - and nothing
+                        // else may be wrong
+                        let alt = model.with_link_bypass();
+                        let mut alt_stats = MsgStats::default();
+                        let mut w = oracle::check_messages("C12", scenario, &alt, res, false, &mut alt_stats);
+                        if !alt.racy.last().copied().unwrap_or(false) {
+                            w.extend(oracle::check_c11(&alt, res, &mut alt_stats));
+                        }
+                        if w.is_empty() {
+                            let first = v[0].detail.clone();
+                            v = vec![Violation::new("C12", "open-buffer-bypassed-through-symlink", first)];
                         }
                     }
                     v
